@@ -18,7 +18,7 @@ MANIFEST = {
     "note": "Trusted: Coq kernel, tools/xlate undo (case bodies matched against templates, anything else = GrUnknown), harness "
             "undorun, Go's time/encoding/json/protobuf text layers and the compressors as hypotheses exercised on every run. "
             "Known findings: protobuf serializer loses integer/bytes/time typing; Lz4 compressor refuses incompressible logs; end to end: "
-            "data validation false-dirty on DECIMAL/BINARY/BLOB/non-binary32 FLOAT columns, scan error on LONGBLOB/YEAR/TIME.",
+            "scan error in phase one on TIME columns.",
     "technique": "Coq proof over translator-regenerated tables + differential correspondence (vm_compute) + direct oracle",
 }
 TABLES = [("undo", "UndoSwitch.v")]
@@ -41,7 +41,7 @@ Import ListNotations. Open Scope Z_scope.
 """
 KIND = {"None": "CNone", "Gzip": "CGzip", "Zip": "CZip", "Bzip2": "CBzip2", "Lz4": "CLz4", "Zstd": "CZstd", "Deflate": "CDeflate"}
 NIL_SLICE_KEYS = {b"rows".hex(), b"fields".hex(), b"sqlUndoLogs".hex()}
-FINDING_PREDS = ("undo.serializer.protobuf", "undo.compress.lz4", "undo.e2e.validation-kind", "undo.e2e.scan-unsupported")
+FINDING_PREDS = ("undo.serializer.protobuf", "undo.compress.lz4", "undo.e2e.scan-unsupported")
 
 
 def z(n):
